@@ -75,7 +75,7 @@ package round
 //@   requires h != nil && !held(h.mtx)
 //@   modifies nothing
 //@   allocates
-//@   ensures !held(h.mtx) && result != nil && result.h != nil
+//@   ensures !held(h.mtx) && result != nil && result.h != nil && fresh(result) && fresh(result.h)
 
 //@ func (*Helper).Hash
 //@   nopanic[C05,C17]
@@ -83,14 +83,14 @@ package round
 //@   requires h != nil && !held(h.mtx)
 //@   modifies nothing
 //@   allocates
-//@   ensures !held(h.mtx) && result != nil && result.h != nil
+//@   ensures !held(h.mtx) && result != nil && result.h != nil && fresh(result.h)
 //@   ensures[C11,C10] hstate(result) == hstate(h.hash) && fresh(result)
 
 //@ func (*Helper).UpdateHashState
 //@   nopanic[C05,C17]
 //@   sequential
 //@   requires h != nil && !held(h.mtx) && hashable(value)
-//@   modifies hstate(h.hash)
+//@   modifies hstate(h.hash), wlog(h.hash.h)
 //@   ensures !held(h.mtx)
 
 //@ func (*Helper).BroadcastMessage
